@@ -6,8 +6,11 @@ import time
 
 HERE = os.path.dirname(os.path.dirname(os.path.abspath(__file__)))
 REPO = os.environ.get('VERIF_REPO', '/repo')
-EVIDENCE_DIR = os.path.join(HERE, 'evidence')
-REPLAY_DIR = os.path.join(HERE, 'replay', 'out')
+# evidence / replay files of runs against a scratch copy (mutation self-test, VERIF_REPO set) never overwrite the
+# real ones: they go to a scratch directory
+_SCRATCH = os.environ.get('VERIF_REPO') not in (None, '', '/repo')
+EVIDENCE_DIR = os.path.join(HERE, 'evidence') if not _SCRATCH else os.path.join(os.environ['VERIF_REPO'], '.verif_evidence')
+REPLAY_DIR = os.path.join(HERE, 'replay', 'out') if not _SCRATCH else os.path.join(os.environ['VERIF_REPO'], '.verif_replay')
 KNOWN_FILE = os.path.join(HERE, 'known_findings.json')
 
 TRUSTED_COMMON = [
